@@ -537,3 +537,38 @@ Proof.
      apply por_pick_rest_none;
      repeat (apply Forall_cons; [reflexivity|]); apply Forall_nil).
 Qed.
+
+(* ---- spellings: digit separators, blanks around commas ---- *)
+Lemma span_all f : forall u rest, Forall (fun c => f c = true) u ->
+  (match rest with c :: _ => f c = false | [] => True end) -> span f (u ++ rest) = (u, rest).
+Proof.
+  induction u as [|c u IH]; intros rest Hu Hr; cbn [List.app].
+  - destruct rest as [|c r]; cbn [span]; [reflexivity|]. rewrite Hr. reflexivity.
+  - inversion Hu; subst. cbn [span]. rewrite H1. rewrite (IH rest H2 Hr). reflexivity.
+Qed.
+
+(* `_` digit separators: any non-empty run of digits and underscores is read as its digits *)
+Theorem digits_with_separators u rest : u <> [] -> Forall (fun c => is_digit_us c = true) u ->
+  (match rest with c :: _ => is_digit_us c = false | [] => True end) ->
+  p_digits (u ++ rest) = Some (Ok (filter (fun c => negb (c =? 95)) u), rest).
+Proof.
+  intros Hne Hu Hr. unfold p_digits, pmap, pspan1. rewrite (span_all is_digit_us u rest Hu Hr).
+  destruct u; [contradiction|reflexivity].
+Qed.
+
+(* optional blanks around commas *)
+Definition blanks (n : nat) : str := repeat 32 n.
+Lemma blanks_sp n : Forall (fun c => is_sp c = true) (blanks n).
+Proof. induction n; cbn [blanks repeat]; constructor; [reflexivity|exact IHn]. Qed.
+Theorem comma_with_blanks a b rest : (match rest with c :: _ => is_sp c = false | [] => True end) ->
+  value_sep (blanks a ++ 44 :: blanks b ++ rest) = Some (Ok tt, rest).
+Proof.
+  intro Hr.
+  assert (S1 : spaces (blanks a ++ 44 :: blanks b ++ rest) = Some (Ok tt, 44 :: blanks b ++ rest)).
+  { unfold spaces, pmap, pspan. rewrite (span_all is_sp (blanks a) (44 :: blanks b ++ rest) (blanks_sp a) eq_refl). reflexivity. }
+  assert (S2 : spaces (blanks b ++ rest) = Some (Ok tt, rest)).
+  { unfold spaces, pmap, pspan. rewrite (span_all is_sp (blanks b) rest (blanks_sp b) Hr). reflexivity. }
+  unfold value_sep, pthen, pmap, pand. rewrite S1.
+  assert (L : plit [44] (44 :: blanks b ++ rest) = Some (Ok tt, blanks b ++ rest)) by reflexivity.
+  rewrite L, S2. reflexivity.
+Qed.
